@@ -131,6 +131,8 @@ def solve_one(idx):
          "path": "".join("T" if b else "F" for b in o.path)}
     if o.replay is not None:
         d["replay"] = o.replay
+    elif r.contract.replay is not None:
+        d["replay"] = r.contract.replay
     if o.status == "refuted" and o.model is not None:
         try:
             I = o.interp
@@ -170,7 +172,7 @@ def verify_all(cons, tier, pid, jobs):
         con = r.contract
         st = r.stats
         out.append({
-            "file": con.file, "func": con.func,
+            "file": con.file, "func": con.func, "ckey": con.key[1],
             "obls": [solved[(fi, oi)] for oi in range(len(r.obls))],
             "undecided": r.undecided, "errors": r.errors, "paths": r.paths,
             "time_gen": r.time_gen,
@@ -326,6 +328,7 @@ def report(a, seed, cons, results, extra, t_start):
             r"[^A-Za-z0-9_.#@-]", "_", ident) + ".json")
         rec = {"property": pid, "obligation": ident,
                "function": r["func"] if r else o.get("function"),
+               "contract_key": r.get("ckey") if r else None,
                "file": r["file"] if r else o.get("file"),
                "verifier_output": {k: o.get(k) for k in
                                    ("name", "kind", "line", "status",
